@@ -595,27 +595,7 @@ def r5_strip_set(ctx):
         yield Ob('rawx12file:RawX12File.__iter__ strips exactly CR and LF in front of a token', ok, ctx.floc(fn, c),
                  '' if ok else '%s(%r): %s' % (meth, arg, 'no argument strips blanks too (hides the leading-blank error)' if arg is None
                                               else 'must strip leading CR/LF only'))
-    # the leading-blank error of the reader: detection before the blank is dropped
-    it = ctx.func('x12file', 'X12Reader.__iter__')
-    g = ctx.cfg(it)
-    tests = [n for n in g.nodes if n.kind == 'test' and 'startswith' in norm(n.ast) and A.const(getattr(n.ast, 'args', [None])[0]) == ' ']
-    ok = False
-    if tests:
-        t = tests[0]
-        tsucc = [s for s, l in t.succ if l == 'T']
-        # on the T branch there must be an error report
-        st = tsucc[:]
-        seen = set()
-        while st:
-            x = st.pop()
-            if x.id in seen or x.kind in ('for', 'loophead'):
-                continue
-            seen.add(x.id)
-            if any(isinstance(c, ast.Call) and A.call_target(c)[1] == '_seg_error' for c in g.walk_exprs(x)):
-                ok = True
-                break
-            st.extend(s for s, l in x.succ if l != 'exc')
-    yield Ob('x12file:X12Reader.__iter__ leading blank is reported', ok, ctx.floc(it), '' if ok else 'no _seg_error on the leading-blank branch')
+    # (the leading-blank error of the reader is decided by C01.R11: the iteration run over a token stream)
 
 
 # --------------------------------------------------------------------------- R6
@@ -810,15 +790,78 @@ def r9_shared_int_total(ctx):
         yield o
 
 
+def r10_shared_stack_safety(ctx):
+    """reading yields every segment of the input: the envelope bookkeeping the reader runs per segment never raises on a
+    stack of open loops that is empty (an orphan trailer), which would end the iteration in the middle of the input.
+    C04.R2 (shared): typestate NonEmpty at every top-of-stack access of the reader classes."""
+    from . import c04
+    for o in c04.r2_stack_safety(ctx):
+        yield o
+
+def r11_reader_iteration(ctx):
+    """X12Reader.__iter__ decided by constant propagation over a stream of tokens (plain, with leading blanks, ending in
+    an element separator, blanks only, both): every token becomes exactly one Segment, in order, built from the token
+    with only its leading blanks removed and with the header's three delimiters; a leading blank is reported as
+    segment error 1 and trailing element separators as SEG1, each once, before the segment and with the line number of
+    that segment (current line + 1); a plain token draws no error."""
+    from ..absint import traces, helper_oracles, NotClosedTest
+    fn = ctx.func('x12file', 'X12Reader.__iter__')
+    g = ctx.cfg(fn)
+    lines = ('REF*A', '  REF*B', 'REF*C*', '  ', ' X*', 'SE*1*2')
+    funcs = helper_oracles(ctx, 'x12file', all_methods_of='X12Reader')
+
+    def key(c):
+        r, m = A.call_target(c)
+        if m == 'Segment':
+            return 'Segment'
+        if (r, m) == ('self', '_seg_error'):
+            return 'error'
+        return None
+    try:
+        res = traces(g, {'self.raw': lines, 'self.seg_term': '~', 'self.ele_term': '*', 'self.subele_term': ':', 'self.cur_line': 10,
+                         'self.err_list': ()}, key, funcs, with_keywords=True)
+    except NotClosedTest as e:
+        raise AnalysisError('X12Reader.__iter__ cannot be decided: %s' % e)
+    want = []
+    for ln in lines:
+        if ln.startswith(' '):
+            want.append(('error', '1', 11))
+        st = ln.lstrip(' ')
+        if st.endswith('*'):
+            want.append(('error', 'SEG1', 11))
+        want.append(('Segment', st, '~', '*', ':'))
+    outs = set()
+    for tr, _e in res:
+        got = []
+        for k_, a_ in tr:
+            if k_ == 'Segment':
+                got.append(('Segment',) + tuple(a_[:4]))
+            else:
+                pos = [x for x in a_ if not (isinstance(x, tuple) and len(x) == 2 and x[0] in ('src_line', 'err_value'))]
+                kw = dict(x for x in a_ if isinstance(x, tuple) and len(x) == 2 and x[0] in ('src_line', 'err_value'))
+                line_no = kw.get('src_line', pos[3] if len(pos) > 3 else None)
+                got.append(('error', pos[0] if pos else None, line_no))
+        outs.add(tuple(got))
+    ok = outs == {tuple(want)}
+    msg = ''
+    if not ok:
+        o_ = sorted(outs, key=repr)[0] if outs else ()
+        d_ = next((i for i, (a_, b_) in enumerate(zip(o_, want)) if a_ != b_), min(len(o_), len(want)))
+        msg = 'for the tokens %s step %d is %r, expected %r' % (list(lines), d_ + 1, o_[d_] if d_ < len(o_) else None, want[d_] if d_ < len(want) else None)
+    yield Ob('x12file:X12Reader.__iter__ one Segment per token, leading blanks and trailing separators reported once with the segment line', ok, ctx.floc(fn), msg)
+
+
 RULES = [
     Rule('C01.R1', 'literal open() modes valid on every supported interpreter; reader opens the path for text reading', r1_open_modes, floor=15),
     Rule('C01.R1b', 'source kind decided by constant propagation: stream used as it is (duck typed), path opened, "-" = stdin', r1b_source_kind, floor=1),
     Rule('C01.R2', 'ISA header offsets = offsets derived from dataele widths; version whitelist = control maps', r2_isa_offsets, floor=9),
     Rule('C01.R3', 'every tokenizer-loop exit is an end-of-stream exit; header read retries', r3_tokenizer_exits, floor=5),
     Rule('C01.R4', 'Segment delimiters come from the header; get_term tuple positions agree', r4_delimiter_provenance, floor=9),
-    Rule('C01.R5', 'strip set in front of a token is exactly {CR, LF}; leading blank reported', r5_strip_set, floor=1),
+    Rule('C01.R5', 'strip set in front of a token is exactly {CR, LF}', r5_strip_set, floor=1),
     Rule('C01.R6', 'ISA elements are never split at the component separator', r6_isa_not_subsplit, floor=2),
     Rule('C01.R9', 'shared with C04.R3: _int is total (no exception ends the iteration early)', r9_shared_int_total, floor=3),
+    Rule('C01.R10', 'shared with C04.R2: top-of-stack accesses of the reader hold NonEmpty (no exception ends the iteration early)', r10_shared_stack_safety, floor=13),
+    Rule('C01.R11', 'X12Reader.__iter__ decided over a token stream: one Segment per token, errors 1 / SEG1 exactly where due (constant propagation)', r11_reader_iteration, floor=1),
     Rule('C01.R8', 'Segment.format / Composite.format print every position up to the last non-empty one (blank is a value)', r8_format_keeps_values, floor=2),
     Rule('C01.R7', 'format puts each delimiter where the parser looks for it; defaults are the segment own delimiters', r7_format_delimiters, floor=5),
 ]
